@@ -62,4 +62,11 @@ CHECKS = [
              "atoms x 4 worker classes x send faults: records captured from gunicorn.access are counted against application calls, their status and "
              "byte atoms compared with what an independent response reader decoded from the client's bytes, and searched for LF.",
      "note": "records captured by a logging.Handler on the real Logger (not via a file); CR is tolerated; byte-count verdict only for well-behaved, non-failing calls"},
+    {"id": "C05", "engine": "W",
+     "technique": "property-based testing + fault injection (Hypothesis, scripted socket faults) and exhaustive truncation of the repository's request fixtures; wire-grammar and reference-reader oracles",
+     "text": "Random bytes, obfuscated/mutated/truncated pipelines and every fixture truncated at every offset (thorough; 1-in-8 in quick) x read "
+             "segmentation x recv/send faults x 4 worker classes x input-reading modes: nothing escapes handle(), the wire is app-response* "
+             "(error page | truncated response)?, error pages are well-formed 4xx/5xx with Connection: close and exact length, application calls "
+             "never exceed what an independent RFC 9112 reader accepts, the socket is closed and the same worker serves the next connection.",
+     "note": "fake socket (EOF after scripted bytes); faults limited to ECONNRESET/EPIPE/ENOTCONN at recv/send call boundaries"},
 ]
